@@ -130,6 +130,8 @@ def prepare(path):
                "ps": a[5], "relax": a[6], "maxsuper": a[7], "overflow": meta.get("overflow", 0),
                "etree": [x + 1 for x in sg["etree"]["l"]],
                "sbnd": [i + 1 for i, x in enumerate(sg["sbnd"]["l"]) if x != 0]}
+        if "colcnt" in meta and len(meta["colcnt"]) == a[1] and len(segs) == 1:
+            cfg["colcnt"] = meta["colcnt"]
         out = path if (len(segs) == 1) else path.replace(".ndjson", "") + ".f%d.ndjson" % k
         with open(out + ".tmp", "w") as f:
             f.write(json.dumps(cfg) + "\n" + sg["create"] + "\n" + "\n".join(sg["lines"]) + "\n")
